@@ -624,3 +624,18 @@ pub fn run(tier_name: &str, seed: u64) -> i32 {
     };
     report::finish(meta, tally, wall, &|v| replay_all(&v["case"]))
 }
+
+
+pub fn digest(seed: u64, i: u64) -> Vec<String> {
+    let t = tier("quick");
+    let case = gen_case(seed, 9000 + i % 5, i, &t);
+    let robot = Arc::new(case.cell.build_robot());
+    case.cfgs
+        .iter()
+        .enumerate()
+        .map(|(j, cfg)| {
+            let out = execute(&robot, &case, cfg);
+            format!("C11 {i} {j} {} {:016x} {}", out.log.hex(), simctx::name_hash(&format!("{:?}", out.result)), out.schedule.len())
+        })
+        .collect()
+}
